@@ -41,6 +41,7 @@ type World struct {
 	loadErrs  []string
 	genSrc    map[string]string // dir -> generated stub source
 	debugRefs map[*ssa.Function]map[string][]*ssa.DebugRef
+	globalWritten map[*ssa.Global]bool
 }
 
 func pkgPathOfDir(repo, dir string) string {
